@@ -25,7 +25,7 @@ struct QMsg { std::string sender; std::vector<std::string> rcpts; std::string bo
 struct SmtpConf {
   bool have_rcpthosts = false; std::set<std::string> rcpthosts, morercpthosts; bool have_more = false;
   std::set<std::string> badmailfrom; std::string localiphost; bool liphostok = false; std::vector<uint32_t> ifaces;
-  bool relayclient = false; std::string relaysuffix; uint64_t databytes = 0; int64_t timeout = 1200;
+  bool relayclient = false; std::string relaysuffix; uint64_t databytes = 0; int64_t timeout = 1200; bool limit_on_stored = false;   /* C07: the size limit is judged on the text the daemon stores (its own decoding, known dot-CR quirk included), C05: on the reference decoding */
   std::string remotehost = "unknown", remoteip = "unknown", remoteinfo, local = "unknown"; bool have_info = false;
   int qq_open_fails_at = 0;   // the n-th attempt to start the queue program fails in the daemon itself (fork or pipe): 451 to DATA, nothing read as data
 };
@@ -154,7 +154,7 @@ static void model_smtp(const SmtpConf &cf, const std::string &in, const std::vec
       i = used;
       int code;
       if (hops >= 100) code = 554;
-      else if (cf.databytes && body.size() > cf.databytes) code = 552;
+      else if (cf.databytes && (cf.limit_on_stored ? [&] { std::string qk; size_t u4 = 0; int h4 = 0; model_decode(in, data_start, u4, qk, h4, true); return qk.size(); }() : body.size()) > cf.databytes) code = 552;
       else if (qq_code == 0) code = 250;
       else {
         // qmail-queue(8) exit codes: 11-40 permanent (except documented temporary ones), others temporary; 82 with custom text
@@ -313,6 +313,7 @@ struct WorldSI : World, Net {
     if (e.has("TCPLOCALHOST")) cf.local = e.gets("TCPLOCALHOST"); else if (e.has("TCPLOCALIP")) cf.local = e.gets("TCPLOCALIP");
     if (e.has("RELAYCLIENT")) { cf.relayclient = true; cf.relaysuffix = e.gets("RELAYCLIENT"); }
     if (e.has("DATABYTES")) cf.databytes = strtoull(e.gets("DATABYTES").c_str(), 0, 10);
+    cf.limit_on_stored = c07 && !c05;
     if (plan->knobs.has("qq")) { use_stub = true; const Json &q = plan->knobs["qq"]; qq_code = (int)q.geti("code", 0); qq_text = q.gets("text"); qq_read_all = q.getb("read_all", true); }
     for (auto &f : plan->faults) if (f.actor.compare(0, 11, "qmail-smtpd") == 0 || f.actor.compare(0, 10, "qmail-qmtp") == 0 || f.actor.compare(0, 10, "qmail-qmqp") == 0) { if (plan->knobs.has("qq_open_fails_at") && (f.call == C_FORK || f.call == C_PIPE)) continue; if (f.kind == "short") continue;   /* a transfer that takes fewer bytes than offered is legal behaviour of the kernel, not a failure: everything is judged as usual */ daemon_fault = true; }
     cf.qq_open_fails_at = (int)plan->knobs.geti("qq_open_fails_at", 0);
